@@ -42,6 +42,8 @@ func main() {
 		cli(os.Args[2:])
 	case "replay":
 		replay(os.Args[2:])
+	case "post":
+		post(os.Args[2:])
 	default:
 		fmt.Fprintln(os.Stderr, "unknown mode")
 		os.Exit(2)
